@@ -159,4 +159,164 @@ theorem acceptKey_some_iff (ksk : KskKey) (pol : KskPolicy) (found : P11Key) (ck
         simp only [bind, Except.bind, this, and_true]
         exact build .rsa hkt.symm (by simp) (by simp)
 
+/-- the second lookup changes nothing but the public key text -/
+theorem refetchPublic_ok (mods : List P11Module) (ksk : KskKey) (isPublic : Bool) (f0 f : P11Key)
+    (tok : Token) (s s' : TokState) (h : refetchPublic mods ksk isPublic f0 tok s = (.ok f, s')) :
+    (f = f0 ∧ (f0.publicKey.isSome ∨ isPublic = true ∨
+        getP11Key ksk.label true ksk.hashUsingHsm mods tok s = (.ok none, s'))) ∨
+    (f0.publicKey = none ∧ isPublic = false ∧
+      ∃ fp, getP11Key ksk.label true ksk.hashUsingHsm mods tok s = (.ok (some fp), s') ∧
+        f = { f0 with publicKey := fp.publicKey }) := by
+  unfold refetchPublic at h
+  split at h
+  · rename_i hc
+    simp only [Bool.and_eq_true, Option.isNone_iff_eq_none, Bool.not_eq_true'] at hc
+    obtain ⟨o, s1, hg, h⟩ := TokM.bind_ok _ _ _ _ _ _ h
+    cases o with
+    | none =>
+      simp only [TokM.pure_run, Prod.mk.injEq, Except.ok.injEq] at h
+      obtain ⟨rfl, rfl⟩ := h
+      left; exact ⟨rfl, Or.inr (Or.inr hg)⟩
+    | some fp =>
+      simp only [TokM.pure_run, Prod.mk.injEq, Except.ok.injEq] at h
+      obtain ⟨rfl, rfl⟩ := h
+      right; exact ⟨hc.1, hc.2, fp, hg, rfl⟩
+  · rename_i hc
+    simp only [TokM.pure_run, Prod.mk.injEq, Except.ok.injEq] at h
+    obtain ⟨rfl, rfl⟩ := h
+    left
+    refine ⟨rfl, ?_⟩
+    simp only [Bool.and_eq_true, Option.isNone_iff_eq_none, Bool.not_eq_true', not_and,
+      Bool.not_eq_false] at hc
+    cases hp : f0.publicKey with
+    | none => right; left; exact hc hp
+    | some x => left; rfl
+
+/-- **inversion of `load_pkcs11_key`**: a key came back only if the window holds, the first lookup
+    found `f0`, the (possibly re-fetched) record `f` passed the pure acceptance test -/
+theorem loadPkcs11Key_some (mods : List P11Module) (ksk : KskKey) (pol : KskPolicy) (b : Bundle)
+    (isPublic : Bool) (tok : Token) (s s' : TokState) (ck : CompositeKey)
+    (h : loadPkcs11Key mods ksk pol b isPublic tok s = (.ok (some ck), s')) :
+    ¬ WindowViolated ksk b ∧ ∃ f0 s1 f,
+      getP11Key ksk.label isPublic ksk.hashUsingHsm mods tok s = (.ok (some f0), s1) ∧
+      refetchPublic mods ksk isPublic f0 tok s1 = (.ok f, s') ∧
+      acceptKey ksk pol f = .ok (some ck) := by
+  by_cases hw : WindowViolated ksk b
+  · rw [loadPkcs11Key_violated _ _ _ _ _ _ _ hw] at h; simp at h
+  · refine ⟨hw, ?_⟩
+    rw [loadPkcs11Key_inside _ _ _ _ _ _ _ hw] at h
+    unfold loadAfterWindow at h
+    cases hg : getP11Key ksk.label isPublic ksk.hashUsingHsm mods tok s with
+    | mk r s1 =>
+      rw [hg] at h
+      cases r with
+      | error e => simp at h
+      | ok o =>
+        cases o with
+        | none => simp at h
+        | some f0 =>
+          simp only at h
+          cases hr : refetchPublic mods ksk isPublic f0 tok s1 with
+          | mk r2 s2 =>
+            rw [hr] at h
+            cases r2 with
+            | error e => simp at h
+            | ok f =>
+              simp only [Prod.mk.injEq] at h
+              obtain ⟨h1, rfl⟩ := h
+              exact ⟨f0, s1, f, rfl, hr, h1⟩
+
+/-- **inversion of `load_pkcs11_key`, "not loaded"** (`None`): inside the window, and either the
+    label is on no token, or the record found (after the second lookup) was not accepted for lack
+    of a usable public part / for being a symmetric key -/
+theorem loadPkcs11Key_none (mods : List P11Module) (ksk : KskKey) (pol : KskPolicy) (b : Bundle)
+    (isPublic : Bool) (tok : Token) (s s' : TokState)
+    (h : loadPkcs11Key mods ksk pol b isPublic tok s = (.ok none, s')) :
+    ¬ WindowViolated ksk b ∧
+    (getP11Key ksk.label isPublic ksk.hashUsingHsm mods tok s = (.ok none, s') ∨
+     ∃ f0 s1 f, getP11Key ksk.label isPublic ksk.hashUsingHsm mods tok s = (.ok (some f0), s1) ∧
+      refetchPublic mods ksk isPublic f0 tok s1 = (.ok f, s') ∧ acceptKey ksk pol f = .ok none) := by
+  by_cases hw : WindowViolated ksk b
+  · rw [loadPkcs11Key_violated _ _ _ _ _ _ _ hw] at h; simp at h
+  · refine ⟨hw, ?_⟩
+    rw [loadPkcs11Key_inside _ _ _ _ _ _ _ hw] at h
+    unfold loadAfterWindow at h
+    cases hg : getP11Key ksk.label isPublic ksk.hashUsingHsm mods tok s with
+    | mk r s1 =>
+      rw [hg] at h
+      cases r with
+      | error e => simp at h
+      | ok o =>
+        cases o with
+        | none =>
+          simp only [Prod.mk.injEq, true_and] at h
+          left; rw [h]
+        | some f0 =>
+          right
+          simp only at h
+          cases hr : refetchPublic mods ksk isPublic f0 tok s1 with
+          | mk r2 s2 =>
+            rw [hr] at h
+            cases r2 with
+            | error e => simp at h
+            | ok f =>
+              simp only [Prod.mk.injEq] at h
+              obtain ⟨h1, rfl⟩ := h
+              exact ⟨f0, s1, f, rfl, hr, h1⟩
+
+/-- `validate_dnskey_matches_ksk` accepts exactly when the configured DS digest (if any, non-empty)
+    equals, case-insensitively, SHA-256 over owner ‖ RDATA, and the configured key tag (if any)
+    equals the key's tag -/
+theorem validateDnskeyMatchesKsk_ok (ext : Externals) (ksk : KskKey) (k : Key)
+    (h : validateDnskeyMatchesKsk ext ksk k = .ok ()) :
+    (∀ t, ksk.keyTag = some t → k.keyTag = t) ∧
+    (∀ ds, ksk.dsSha256 = some ds → ds.isEmpty = false →
+      ∃ inp digest, dsInput k = .ok inp ∧ ext.hash .sha256 inp = some digest ∧
+        ds.toUpper = upperHex digest) := by
+  have htag : (match ksk.keyTag with
+      | none => pure ()
+      | some t => if (k.keyTag != t) = true then err .runtime else pure () : Res Unit) = .ok () →
+      ∀ t, ksk.keyTag = some t → k.keyTag = t := by
+    intro h t ht
+    rw [ht] at h
+    simp only at h
+    by_cases hne : (k.keyTag != t) = true
+    · simp [hne, err] at h
+    · simpa using hne
+  unfold validateDnskeyMatchesKsk at h
+  simp only at h
+  cases hd : ksk.dsSha256 with
+  | none =>
+    rw [hd] at h
+    exact ⟨htag h, by intro ds hds; simp at hds⟩
+  | some ds =>
+    rw [hd] at h
+    simp only at h
+    cases hemp : ds.isEmpty
+    case true =>
+      simp only [hemp, ↓reduceIte] at h
+      refine ⟨htag h, ?_⟩
+      intro ds' hds' he'
+      simp only [Option.some.injEq] at hds'
+      subst hds'
+      rw [hemp] at he'; simp at he'
+    simp only [hemp, Bool.false_eq_true, ↓reduceIte, bind, Except.bind] at h
+    cases hin : dsInput k with
+    | error e => simp [hin] at h
+    | ok inp =>
+      simp only [hin] at h
+      cases hh : ext.hash .sha256 inp with
+      | none => simp [hashOrUnknown, hh, unsupported] at h
+      | some digest =>
+        simp only [hashOrUnknown, hh, pure, Except.pure] at h
+        by_cases hne : (ds.toUpper != upperHex digest) = true
+        · simp [hne, err] at h
+        · simp only [hne, Bool.false_eq_true, ↓reduceIte] at h
+          refine ⟨htag h, ?_⟩
+          intro ds' hds' _
+          simp only [Option.some.injEq] at hds'
+          subst hds'
+          exact ⟨inp, digest, rfl, hh, by simpa using hne⟩
+
+
 end Kskm
